@@ -74,6 +74,26 @@ def dialect_str(t, uk, sep, pad, with_time):
 WS = [' ', '  ', '\t', ' \n', '\r\n ']
 
 
+def padsep_str(rng, t, uk, with_time):
+    """d<sep>m<sep>yyyy with blanks around the separators ('13 / 01 / 2000', '13 -01- 2000', '13  01  2000'): still a day-month string
+    whose separators are those of the quantifier; dateutil reads it like the tight form (avoided: a blank only in front of the year
+    after two equal tight separators, '01/02/ 2000', which dateutil rejects)"""
+    a, b = (t.day, t.month) if uk else (t.month, t.day)
+    f = '%02d' if rng.random() < 0.5 else '%d'
+    s1, s2 = rng.choice('/- '), rng.choice('/- ')
+    pads = ['', ' ', '  ']
+    while True:
+        l1, r1, l2, r2 = (rng.choice(pads) for _ in range(4))
+        if (l1 or r1 or l2 or r2) and not (r2 and not l2):
+            break
+    s = f % a + l1 + s1 + r1 + f % b + l2 + s2 + r2 + '%04d' % t.year
+    if with_time:
+        s += ' %02d:%02d:%02d' % (t.hour, t.minute, t.second)
+        if t.microsecond:
+            s += '.%06d' % t.microsecond
+    return s
+
+
 def wrap_ws(rng, s):
     """the same text with white space around it (dateutil ignores it; the dialect code must not be fooled by it)"""
     k = rng.randrange(3)
@@ -135,6 +155,11 @@ def spellings(t, rng, full):
     out.append(('uk-str-ws', L('str', 'uk', s_(wrap_ws(rng, dialect_str(t, True, sep, pad, wt)))), exp))
     out.append(('us-str-ws', L('str', 'us', s_(wrap_ws(rng, dialect_str(t, False, sep, pad, wt)))), exp))
     out.append(('iso-ws', L('str', rng.choice(['uk', 'us']), s_(wrap_ws(rng, t.isoformat()))), t))
+    # ... and with blanks around the separators
+    wt = rng.random() < 0.3
+    exp = t if wt else day
+    out.append(('uk-str-padsep', L('str', 'uk', s_(padsep_str(rng, t, True, wt))), exp))
+    out.append(('us-str-padsep', L('str', 'us', s_(padsep_str(rng, t, False, wt))), exp))
     out.append(('parts-hms-us', L('ymd', *['I:%d' % x for x in (t.year, t.month, t.day, t.hour, t.minute, t.second, t.microsecond)]), t))
     names = name_strs(t)
     for s in (names if full else rng.sample(names, 2)):
@@ -178,6 +203,8 @@ def generate(rng, tier):
             f = (lambda x: wrap_ws(rng, x)) if rng.random() < 0.6 else (lambda x: x)
             yield dict(tag='uk-str-read-as-us-reject-ws', lines=[L('str', 'us', s_(f(dialect_str(t, True, sep, pad, wt))))], expect='err ValueError')
             yield dict(tag='us-str-read-as-uk-reject-ws', lines=[L('str', 'uk', s_(f(dialect_str(t, False, sep, pad, wt))))], expect='err ValueError')
+            yield dict(tag='uk-str-read-as-us-reject-padsep', lines=[L('str', 'us', s_(padsep_str(rng, t, True, wt)))], expect='err ValueError')
+            yield dict(tag='us-str-read-as-uk-reject-padsep', lines=[L('str', 'uk', s_(padsep_str(rng, t, False, wt)))], expect='err ValueError')
     # ---- month / day overflow
     ms, ds = list(range(-36, 49)), list(range(-400, 401))
     for _ in range(1500 if quick else 60000):
@@ -347,6 +374,9 @@ def laws(rng, tier, ctx):
         checks.append(('law-uk-ws', L('str', 'uk', s_(ukd)), safe(dt, ukd), day))
         checks.append(('law-us-ws', L('str', 'us', s_(usd)), safe(dt, usd, dialect='us'), day))
         checks.append(('law-ymd-uk', L('ymd/str', 'uk', s_(uku)), safe(ymd, uku), day))
+        ukp, usp = padsep_str(rng, tu, True, True), padsep_str(rng, tu, False, True)
+        checks.append(('law-uk-padsep', L('str', 'uk', s_(ukp)), safe(dt, ukp), tu))
+        checks.append(('law-us-padsep', L('str', 'us', s_(usp)), safe(dt, usp, dialect='us'), tu))
         nm = rng.choice(name_strs(t))
         checks.append(('law-month-name', L('str', 'uk', s_(nm)), safe(dt, nm), day))
         if t.day > 12:
@@ -356,6 +386,8 @@ def laws(rng, tier, ctx):
             checks.append(('law-us-rejects-uk', L('str', 'us', s_(ukd)), safe(dt, ukd, dialect='us'), 'raise ValueError'))
             checks.append(('law-uk-rejects-us', L('str', 'uk', s_(usu)), safe(dt, usu), 'raise ValueError'))
             checks.append(('law-us-rejects-uk', L('str', 'us', s_(uku)), safe(dt, uku, dialect='us'), 'raise ValueError'))
+            checks.append(('law-uk-rejects-us', L('str', 'uk', s_(usp)), safe(dt, usp), 'raise ValueError'))
+            checks.append(('law-us-rejects-uk', L('str', 'us', s_(ukp)), safe(dt, ukp, dialect='us'), 'raise ValueError'))
         for tag, ln, got, want in checks:
             count += 1
             ok = (got == want) if not isinstance(want, str) else (isinstance(got, str) and got in ('raise ValueError', 'raise ParserError'))
